@@ -215,6 +215,9 @@ class _ReadSourceGenerator:
                 # The size of the array may depend on a field of the anonymous structure, the generated code
                 # only knows the members of this structure itself as context
                 raise TypeError("Unsupported for compiler: dynamic array after an anonymous structure")
+            if seen_anonymous and issubclass(base_type, Pointer) and getattr(base_type.type, "dynamic", False):
+                # The same goes for a pointer to something of variable size, it is dereferenced with that context
+                raise TypeError("Unsupported for compiler: pointer to a dynamic type after an anonymous structure")
             if field.name is None and issubclass(field_type, Structure):
                 seen_anonymous = True
 
